@@ -560,6 +560,12 @@ def oracle_C16(tier):
                 for body in ('\\foo{a}', '\\item one', 'x $y$', '{', 'a % c\n b'):
                     cases.append('\\begin{%s%s}%s\\end{%s}' % (nm, pad, body, nm))
                     cases.append('\\begin{%s%s}%s\\end{%s%s}' % (pad, nm, body, nm, pad))
+                    cases.append('\\begin{%s}%s\\end{%s%s}' % (nm, body, nm, pad))
+                    cases.append('\\begin{%s}%s\\end{%s%s}' % (nm, body, pad, nm))
+            for body in ('x', '\\foo{a}'):
+                cases.append('\\begin{%s%%\n}%s\\end{%s%%\n}' % (nm, body, nm))
+                cases.append('\\begin{%s%%c\n}%s\\end{%s}' % (nm, body, nm))
+                cases.append('\\begin{%s}%s\\end{%s%%c\n}' % (nm, body, nm))
     except Exception:      # noqa
         pass
     res = Result('oracle-C16')
